@@ -95,10 +95,11 @@ structure St where
   drv : Nat → Drv := fun _ => {}
   sock : Nat → Sock := fun _ => {}
   todo : Nat → Todo := fun _ => {}
-  /-- future id ↦ (socket, state); ids are positions -/
-  futs : List (Nat × Fut) := []
+  /-- future id ↦ (socket, state) -/
+  futs : Nat → Option (Nat × Fut) := fun _ => none
+  /-- number of futures handed out so far (ids are `0 … nfut-1`) -/
+  nfut : Nat := 0
   poolAlive : Bool := true
-  poolBusy : Nat := 0
   ub : Option String := none
   log : List Ev := []      -- newest first
 
@@ -134,14 +135,18 @@ def setOut : List (Nat × Bool) → Nat → Bool → List (Nat × Bool)
 def Drv.unregister (d : Drv) (fd : Nat) : Drv :=
   { d with sockets := d.sockets.erase fd, pfds := erasePfd d.pfds fd }
 
-/-- resolve future `id` -/
-def setFut : List (Nat × Fut) → Nat → Fut → List (Nat × Fut)
-  | [], _, _ => []
-  | p :: ps, 0, v => (p.1, v) :: ps
-  | p :: ps, n + 1, v => p :: setFut ps n v
+def St.isPending (s : St) (j : Nat) : Bool :=
+  match s.futs j with
+  | some (_, .pending) => true
+  | _ => false
 
+/-- buffers of the user's send pool that are out: one per send whose future is still pending -/
+def St.poolBusy (s : St) : Nat := ((List.range s.nfut).filter s.isPending).length
+
+/-- resolve future `id` -/
 def St.resolve (s : St) (id : Nat) (v : Fut) : St :=
-  { s with futs := setFut s.futs id v, log := .fut id v :: s.log }
+  { s with futs := fun j => if j = id then (s.futs id).map (fun (p : Nat × Fut) => (p.1, v)) else s.futs j,
+           log := .fut id v :: s.log }
 
 /-- `~SocketAsyncImpl` (+ members): unregister if the driver still exists; the queue dies with its
 promises (broken) and returns its buffers to the send pool; the internal receive pool dies -/
@@ -149,9 +154,10 @@ def St.destroySockObj (s : St) (i : Nat) : St :=
   let k := s.sock i
   let s := if k.held > 0 then s.fail "socket destroyed while receive buffers of its pool are still held" else s
   let s := if (s.drv k.drv).alive then s.setDrv k.drv ((s.drv k.drv).unregister i) else s
-  let s := k.sendQ.foldl (fun s id => s.resolve id .broken) s
   let s := if k.sendQ.length > 0 ∧ ¬ s.poolAlive then s.fail "send buffer returned to a destroyed pool" else s
-  { s.setSock i { k with alive := false, sendQ := [] } with poolBusy := s.poolBusy - k.sendQ.length }
+  let s := { s with futs := fun j => if j ∈ k.sendQ then (s.futs j).map (fun (p : Nat × Fut) => (p.1, Fut.broken)) else s.futs j,
+                    log := (k.sendQ.map fun id => Ev.fut id .broken).reverse ++ s.log }
+  s.setSock i { k with alive := false, sendQ := [] }
 
 /-- `DriverDisconnect`: unregister, then the user's handler (which may destroy the socket) -/
 def St.disconnect (s : St) (i : Nat) : St :=
@@ -205,21 +211,25 @@ def St.onWritable (s : St) (i : Nat) : St :=
   | id :: rest =>
     let v := if k.kind = .tcp ∧ k.peer ≠ .up then Fut.either else Fut.value
     let s := s.resolve id v
-    let s := { s.setSock i { k with sendQ := rest } with poolBusy := s.poolBusy - 1 }
+    let s := s.setSock i { k with sendQ := rest }
     if rest.isEmpty then s.setDrv k.drv { (s.drv k.drv) with pfds := setOut (s.drv k.drv).pfds i false } else s
 
-/-- `Driver::Step(Duration(0))` -/
-def St.step (s : St) (d : Nat) : St :=
-  -- StepTodos with a zero deadline: at most one due task
-  let s := match (s.drv d).todos with
-    | [] => s
-    | t :: rest => (s.setDrv d { (s.drv d) with todos := rest }).emit (.todo t)
-  -- StepSockets
+/-- `StepTodos` with a zero deadline: at most one due task -/
+def St.runTodo (s : St) (d : Nat) : St :=
+  match (s.drv d).todos with
+  | [] => s
+  | t :: rest => (s.setDrv d { (s.drv d) with todos := rest }).emit (.todo t)
+
+/-- `StepSockets(0)`: poll, then one socket task -/
+def St.stepSockets (s : St) (d : Nat) : St :=
   match scan s.sock (s.drv d).sockets (s.drv d).pfds with
   | .error why => s.fail why
   | .ok none => s
   | .ok (some (.read i)) => s.onReadable i
   | .ok (some (.write i)) => s.onWritable i
+
+/-- `Driver::Step(Duration(0))` -/
+def St.step (s : St) (d : Nat) : St := (s.runTodo d).stepSockets d
 
 def St.wantSend (v : Variant) (s : St) (i : Nat) : St :=
   let k := s.sock i
@@ -230,11 +240,18 @@ def St.wantSend (v : Variant) (s : St) (i : Nat) : St :=
     | .fixed => s                         -- already unregistered after the peer disconnected
     | .legacy => s.fail "AsyncWantSend writes through pfds.end()"
 
+/-- `DoSendEnqueue`: a new promise/future pair and the buffer go to the back of the queue -/
+def St.enqueue (s : St) (i : Nat) : St :=
+  { s.setSock i { (s.sock i) with sendQ := (s.sock i).sendQ ++ [s.nfut] } with
+      futs := fun j => if j = s.nfut then some (i, .pending) else s.futs j, nfut := s.nfut + 1 }
+
 def exec (v : Variant) (s : St) (op : Op) : St :=
   if s.ub.isSome then s else
   match op with
-  | .mkDriver d => s.setDrv d { present := true, alive := true }
+  | .mkDriver d =>
+    if (s.drv d).present then s.fail "driver id reused" else s.setDrv d { present := true, alive := true }
   | .mkSock i k d onDisc holdRx sdr =>
+    if (s.sock i).present then s.fail "socket id reused" else
     if ¬ (s.drv d).alive then s.fail "socket attached to a driver that does not exist" else
     let s := s.setSock i { present := true, alive := true, kind := k, drv := d, onDisc := onDisc, holdRx := holdRx,
                            selfDestroyInRecv := sdr }
@@ -243,10 +260,7 @@ def exec (v : Variant) (s : St) (op : Op) : St :=
     let k := s.sock i
     if ¬ k.alive then s.fail "Send on a socket that does not exist (any more)" else
     if ¬ s.poolAlive then s.fail "buffer taken from a destroyed pool" else
-    let id := s.futs.length
-    let wasEmpty := k.sendQ.isEmpty
-    let s := { s.setSock i { k with sendQ := k.sendQ ++ [id] } with futs := s.futs ++ [(i, .pending)], poolBusy := s.poolBusy + 1 }
-    if wasEmpty then s.wantSend v i else s
+    if k.sendQ.isEmpty then (s.enqueue i).wantSend v i else s.enqueue i
   | .step d => if ¬ (s.drv d).alive then s.fail "Step on a driver that does not exist (any more)" else s.step d
   -- a TCP stream coalesces what is unread (the harness' chunks are far smaller than a receive buffer)
   | .peerSend i => s.setSock i { (s.sock i) with rx := if (s.sock i).kind = .tcp then 1 else (s.sock i).rx + 1 }
@@ -260,6 +274,7 @@ def exec (v : Variant) (s : St) (op : Op) : St :=
     if ¬ (s.drv d).alive then s.fail "driver destroyed twice / never created" else
     s.setDrv d { (s.drv d) with alive := false, todos := [] }
   | .mkTodo t d scheduled =>
+    if (s.todo t).present then s.fail "ToDo id reused" else
     if ¬ (s.drv d).alive then s.fail "ToDo created on a driver that does not exist" else
     let s := s.setTodo t { present := true, handle := true, drv := d }
     if scheduled then s.setDrv d { (s.drv d) with todos := (s.drv d).todos ++ [t] } else s
